@@ -97,7 +97,16 @@ func (cb *CanonicalBlock) MarshalCbor(w io.Writer) error {
 }
 
 // UnmarshalCbor creates this Canonical Block based on a CBOR representation.
-func (cb *CanonicalBlock) UnmarshalCbor(r io.Reader) error {
+func (cb *CanonicalBlock) UnmarshalCbor(r io.Reader) (err error) {
+	// A break code in place of a block ends the bundle's array of blocks, compare Bundle.UnmarshalCbor. Once the
+	// block's array has been opened, a break code in place of one of its fields is nothing but a malformed block.
+	blockOpened := false
+	defer func() {
+		if blockOpened && err == cboring.FlagBreakCode {
+			err = fmt.Errorf("break code within a canonical block")
+		}
+	}()
+
 	// Pipe incoming bytes into a separate CRC buffer, starting with the array's header as it was received
 	crcBuff := new(bytes.Buffer)
 	crcReader := io.TeeReader(r, crcBuff)
@@ -109,6 +118,7 @@ func (cb *CanonicalBlock) UnmarshalCbor(r io.Reader) error {
 		return fmt.Errorf("expected array with length 5 or 6, got %d", bl)
 	} else {
 		blockLen = bl
+		blockOpened = true
 	}
 
 	if blockLen == 6 {
